@@ -68,6 +68,7 @@ func (in *Interp) intrinsic(caller *frame, name string, args []value, pos token.
 		nm := in.argStr(args[0])
 		id := in.newSym(64, "atom_"+nm)
 		in.assert(ULt(alen(id), BVu(64, 1<<20)))
+		in.assert(ULt(BVu(64, 0), alen(id))) // atoms are non-empty (distinct atoms must be distinct strings)
 		in.addInput(nm, "atom", id)
 		return &Str{Kind: sAtom, Atom: id, Name: nm}
 	case "Choose":
